@@ -291,18 +291,20 @@ theorem seq_fulfill_failed (f : Flags) (v0 v : Option Nat) (e : ErrV) :
       (some ⟨v0, some e⟩, some (if f.relay then .cannotRelay else .failedPromise)) := by
   cases f with | mk m r l => cases m <;> cases r <;> cases l <;> rfl
 
-/-- Fail of an unset promise succeeds; Fail of a settled one reports false and changes nothing -/
+/-- Fail of an unset promise succeeds; Fail of a promise that holds a Result — whatever it is,
+    `Result{nil, nil}` after `Fulfill(nil)` included (fix 0095d35) — reports false and changes
+    nothing -/
 theorem seq_fail (v : Option Nat) (e : Option ErrV) :
     Promise.fail none v e = (some ⟨v, e⟩, true) ∧
-    ∀ r0 : Res, r0.settled = true → Promise.fail (some r0) v e = (some r0, false) :=
-  ⟨fail_unset v e, fun r0 h => fail_settled r0 h v e⟩
+    ∀ r0 : Res, Promise.fail (some r0) v e = (some r0, false) :=
+  ⟨fail_unset v e, fun r0 => fail_set r0 v e⟩
 
 /-- Recover: a recoverable promise is reset to the given value (or emptied when the value is
-    nil); on a non-recoverable promise it reports false — and, as the code stands, drops the
-    message (mirrored quirk) -/
+    nil); on a non-recoverable promise it reports false and leaves the promise as it is
+    (fix 5f9d169; as found the refused call dropped the message) -/
 theorem seq_recover (f : Flags) (box : Option Res) (v : Nat) :
-    Promise.recover f box (some v) = (if f.recoverable then (some ⟨some v, none⟩, true) else (none, false)) ∧
-    Promise.recover f box none = (none, f.recoverable) := by
+    Promise.recover f box (some v) = (if f.recoverable then (some ⟨some v, none⟩, true) else (box, false)) ∧
+    Promise.recover f box none = (if f.recoverable then none else box, f.recoverable) := by
   cases f with | mk m r l => cases m <;> cases r <;> cases l <;> exact ⟨rfl, rfl⟩
 
 /-- the laws above as one decidable table over all 8 flag combinations and a small value domain -/
